@@ -33,11 +33,14 @@ def judge (input impl : String) : String × String × String :=
       let (r, s) := expected o m
       -- the line-by-line validator model must agree with the claims-level reading of "has an undefined member"
       let s2 := if r == "acc" && !lostProofCtx o m then (if Strict.strictOk (definedFor m) (withoutProof m) then "acc" else "rej") else s
-      let line := s!"sign=ok base=acc res={r} strict={s} applied={get "applied"}"
+      -- `addcase` mutations report what the accepted credential says about its signed members
+      let view := get "view"
+      let line := s!"sign=ok base=acc res={r} strict={s} applied={get "applied"}" ++ (if view == "?" then "" else " view=-")
       let modelCol := if s2 != s then s!"validator model says strict={s2}, claims model strict={s}"
         else if line == head then "=" else line
       -- the contract: the base document verifies; the outcome is what the statements and the proof dictate
       let spec := if get "base" != "acc" then "SIGNED-DOCUMENT-DOES-NOT-VERIFY"
+        else if get "res" == "acc" && view == "changed" then "VERIFIED-CREDENTIAL-REPORTS-OTHER-SIGNED-MEMBERS-THAN-THE-SIGNED-DOCUMENT"
         else if get "res" != r then s!"contract demands res={r}"
         else if get "strict" != s then s!"contract demands strict={s}"
         else "="
